@@ -21,7 +21,9 @@ RULE = (
     "restricted to tensors whose dilatational and deviatoric eigenvalue gaps exceed "
     "1e-3*norm and whose three candidate symmetry-axis permutations are separated; (c): "
     "arbitrary symmetric positive-definite 6x6 matrices for the moduli / percent-anisotropy "
-    "formulas. Non-trivial: Q at least 5 degrees from every axis-aligned rotation "
+    "formulas; every tensor in units from 1e-12 to 1e12 of the GPa values (moduli scale, "
+    "percentages and axes do not). "
+    "Non-trivial: Q at least 5 degrees from every axis-aligned rotation "
     "(a, b); >=15 non-zero independent entries (c); distinct = distinct canonical JSON."
 )
 ASSUMPTIONS = [
@@ -47,7 +49,7 @@ def ortho_matrix(c):
     return m
 
 
-UNITS = [1.0, 1.0, 1e9, 1e-2, 1e3, 1e-12, 1e12]  # GPa (twice), Pa, Mbar, MPa, and far-out scales
+UNITS = [1.0, 1.0, 1e9, 1e-2, 1e3, 1e-12, 1e12, "whole", "whole"]  # GPa (twice), Pa, Mbar, MPa, and far-out scales
 
 
 def ortho_spec():
@@ -74,10 +76,14 @@ def ortho_from(spec):
     percentages and the axis do not depend on it."""
     unit = spec.get("unit", 1.0)
     if spec["k"] == "olivine":
-        return _minerals.StiffnessTensors().olivine.copy() * unit
-    if spec["k"] == "enstatite":
-        return _minerals.StiffnessTensors().enstatite.copy() * unit
-    return ortho_matrix(spec["d"] + spec["o"] + spec["s"]) * unit
+        m = _minerals.StiffnessTensors().olivine.copy()
+    elif spec["k"] == "enstatite":
+        m = _minerals.StiffnessTensors().enstatite.copy()
+    else:
+        m = ortho_matrix(spec["d"] + spec["o"] + spec["s"])
+    if unit == "whole":  # whole GPa values typed in as integers
+        return np.round(m).astype(np.int64)
+    return m * unit
 
 
 def _contractions(m):
@@ -212,7 +218,7 @@ def check_orthorhombic(case):
     require(int(np.argmax(np.abs(a0))) == best[2], f"reported hexagonal axis {a0} is not the axis of the closest hexagonal approximation (coordinate axis {best[2]}; distances {[round(o[0], 6) for o in own]})")
     for k, v in best[1].items():
         require(abs(out[k][0] - v) <= 1e-7, f"{k} = {out[k][0]!r}, decomposition about the best axis gives {v!r}")
-    return {"nontrivial": gen.angle_from_axis24(Q) >= 5.0, "labels": [case["C"]["k"], case["Q"]["k"], f"unit{case['C'].get('unit', 1.0):g}"], "residual": max(worst, e)}
+    return {"nontrivial": gen.angle_from_axis24(Q) >= 5.0, "labels": [case["C"]["k"], case["Q"]["k"], f"unit{case['C'].get('unit', 1.0)}"], "residual": max(worst, e)}
 
 
 def avg_case():
@@ -289,7 +295,8 @@ def check_general(case):
     from checks.c11 import sym_matrix
 
     m = sym_matrix(case["m"])
-    m = (m + np.eye(6) * (np.abs(m).sum(axis=1).max() + 1.0)) * case.get("unit", 1.0)
+    m = m + np.eye(6) * (np.abs(m).sum(axis=1).max() + 1.0)
+    m = np.round(m).astype(np.int64) if case.get("unit") == "whole" else m * case.get("unit", 1.0)
     out = sut(pydrex.elasticity_components, m[None])
     _basic(out, m, 0, "general tensor")
     # upper triangle is what counts (documented behaviour: symmetrised from the upper triangle)
